@@ -7,8 +7,12 @@ nothing pinned, pinned only, both; files / counters there or not): the verdict o
 never from an empty payload — must be the rule's on every content; and the listings on empty / singleton candidate lists. The two class listings (ptt / bbs LoadClassBoards,
 LoadFullClassBoards) run on class trees planted into the scratch environment (root and nested class; children: the row's board, unrestricted /
 hidden / level / over-18 class, link, ordinary board, vacated slot, the fixture's classes; chain resolved by the code or planted, both sort
-orders): they must return, with exactly the children the caller may list, in sibling order, each with its title."""
-import os, re, sys
+orders): they must return, with exactly the children the caller may list, in sibling order, each with its title.
+Build configurations: the repository compiles in two configurations (default; -tags docker = production). A second driver is built
+with `-tags "verif docker"` and the whole decision table (every entry point, summaries included), the degenerate listings and a
+sample of the content / class-listing cases run there too, under the same predicates; the compile-time options a summary depends
+on are read from both binaries and compared with what gosync translated for that build (Gen/Consts_default.v, Gen/Consts_docker.v)."""
+import json, os, re, sys
 from concurrent.futures import ThreadPoolExecutor
 sys.path.insert(0, os.path.join(os.path.dirname(os.path.abspath(__file__)), "..", "lib"))
 import vf
@@ -215,6 +219,22 @@ def returned_attr(r, ba):
     return ba
 
 
+def reference_row(r, ba, grp):
+    """the whole answer line of ops 1 / 9 as the property text prescribes it (written in the check, no model, no build option):
+    status, boardPermStat (0 refused, 2 a hidden board shown as a board only, 1 otherwise), groupOp, six article entry points,
+    four listings (code, attr), summary (code, attr), four bbs article entry points, bbs summary (code, attr)"""
+    mr, ml = spec_may_read(r), spec_may_list(r)
+    attr = returned_attr(r, ba)
+    stat = 0 if not mr else (2 if attr != ba else 1)
+    art = ["1" if mr else "0"]
+    out = ["0", str(stat), str(int(bool(r["permboard"] or r["namedbm"])))] + art * 6
+    for name in LISTING_EPS:
+        shown = ml and not (grp and name != "ptt.LoadBoardsByBids")
+        out += ["1", str(attr)] if shown else ["0", "-1"]
+    summary = ["1" if ml else "2", str(attr)]
+    return " ".join(out + summary + art * 4 + summary)
+
+
 def kind_header(kind, bid, ba, bl, lvl, fixture):
     """(named, attr, level) of a planted child"""
     if kind == K_ROW:
@@ -240,24 +260,81 @@ def parse_class_listings(f):
     return lists, chain
 
 
+# build configurations of the repository: (number on the wire, name, go build tags, driver name)
+BUILDS = [(0, "default", "verif", "implrun"), (1, "docker", "verif docker", "implrun_docker")]
+DOCKER_NOTE = "production build: go build -tags docker (driver build/implrun_docker, built with -tags 'verif docker')"
+
+
+def replay_other_build(argv):
+    """A replay recorded on the production build must run on the driver of that build (the generic replay uses the default one)."""
+    if "--replay" not in argv:
+        return
+    path = argv[argv.index("--replay") + 1]
+    obj = json.load(open(path))
+    cfg = [b for b in BUILDS if b[1] == obj.get("build")]
+    if not cfg or cfg[0][1] == "default" or not obj.get("cases"):
+        return
+    _, name, tags, drv = cfg[0]
+    print("replay of %s on the %s build (-tags '%s'): %s" % (path, name, tags, obj.get("what", "")))
+    exe = vf.build_impl(tags=tags, name=drv)
+    out = vf.run_impl(exe, "C07", obj["cases"])
+    vf.ipc_cleanup()
+    bad = False
+    for cs, o in zip(obj["cases"], out):
+        print("case   %s\nresult %s" % (cs, o))
+        bad = bad or o.split()[:1] in (["1"], ["2"])
+    if isinstance(obj.get("expected"), str):
+        print("expected %s" % obj["expected"])
+        bad = bad or out[-1].strip() != obj["expected"].strip()
+    print("replay: %s" % ("property still violated on this input" if bad else "input now behaves"))
+    sys.exit(1 if bad else 0)
+
+
 def main():
+    replay_other_build(sys.argv[1:])
     c = vf.Check("C07")
     rng = c.rng
     thorough = c.tier == "thorough"
     c.prove()
     model_ok = c.model_ok()
     impl = vf.build_impl()
+    impl_docker = vf.build_impl(tags=BUILDS[1][2], name=BUILDS[1][3])       # the production configuration
     model = vf.build_model("C07") if model_ok else None
     vf.ipc_cleanup()
 
-    def run_impl_par(lines, workers=12):
+    def run_impl_par(lines, workers=12, exe=None):
+        exe = exe or impl
         if len(lines) < 2000:
-            return vf.run_impl(impl, "C07", lines)
+            return vf.run_impl(exe, "C07", lines)
         n = (len(lines) + workers - 1) // workers
         chunks = [lines[k:k + n] for k in range(0, len(lines), n)]
         with ThreadPoolExecutor(max_workers=workers) as ex:
-            outs = list(ex.map(lambda ch: vf.run_impl(impl, "C07", ch), chunks))
+            outs = list(ex.map(lambda ch: vf.run_impl(exe, "C07", ch), chunks))
         return [o for ch in outs for o in ch]
+
+    def at(build, key):
+        """violation key / replay fields of a case that ran on another build than the default one"""
+        return key if build == "default" else key + "@" + build
+
+    def brep(build, d):
+        return d if build == "default" else dict(d, build=build, build_note=DOCKER_NOTE,
+                                                 replay_with="./check C07 --replay <this file>   (runs the cases on build/implrun_docker)")
+
+    # ---------------------------------------------------------------- the two build configurations
+    # each driver says which configuration it was compiled with and what the options a summary depends on are in it;
+    # it refuses a case addressed to the other build, so an answer to `9 1|...` can only come from the -tags docker binary
+    lb = ["10 0", "10 1"]
+    ob = [vf.run_impl(impl, "C07", lb), vf.run_impl(impl_docker, "C07", lb)]
+    c.count(4, "build options")
+    options = {}
+    if [o.split()[:1] for o in ob[0]] != [["0"], ["9"]] or [o.split()[:1] for o in ob[1]] != [["9"], ["0"]] or ob[0][0].split()[2:] == ob[1][1].split()[2:]:
+        c.broken.append({"kind": "correspondence", "where": "build configurations", "theorem": "build/implrun is the default build, build/implrun_docker the -tags docker build (MAX_BOARD differs)",
+                         "examples": [{"case": " / ".join(lb), "impl": " / ".join(ob[0]), "impl_docker": " / ".join(ob[1])}], "log": ""})
+    else:
+        options = {"default": ob[0][0], "docker": ob[1][1]}
+        if model:
+            vf.correspond(c, "compile-time options of each build (binary vs Gen/Consts_<build>.v)", lb, [ob[0][0], ob[1][1]], vf.run_model(model, lb))
+    c.cov["build_options"] = {k: {"USE_REAL_DESC_FOR_HIDDEN_BOARD_IN_MYFAV": v.split()[1], "MAX_BOARD": v.split()[2]} for k, v in options.items()}
 
     # ---------------------------------------------------------------- the decision table
     rows = []
@@ -295,38 +372,68 @@ def main():
         vf.correspond(c, "decision table x entry points", l1, o1, m1)
 
     outcome_count = {"allow": 0, "deny": 0, "deny-but-listed": 0}
-    for k_row, ((r, t, ba, grp), line, o) in enumerate(zip(table, l1, o1)):
-        f = o.split()
-        exp = {"expected": m1[k_row]} if model else {}          # the whole line the model (= the specification, by C07_rule) prescribes
-        mr, ml = spec_may_read(r), spec_may_list(r)
-        outcome_count["allow" if mr else ("deny-but-listed" if ml else "deny")] += 1
-        c.nontrivial(tuple(r[k] for k in FIELDS) + (grp,))
-        if f[0] != "0" or len(f) != 25:
-            c.violation("entry-point-crash", "a read entry point crashed / stalled on row %s: %s" % (t, o), {"cases": [line], "got": o})
-            continue
-        stat, gop = int(f[1]), f[2] == "1"
-        if (stat != 0) != mr:
-            c.violation("rule", "boardPermStat = %d where the specification says %s on row %s" % (stat, "allow" if mr else "deny", {k: r[k] for k in FIELDS}),
-                        dict({"cases": [line], "got": o}, **exp))
-        want_art = "1" if mr else "0"
-        for name, got in zip(ARTICLE_EPS, f[3:9]):
-            if got != want_art:
-                c.violation("entry:" + name, "%s answered %s where the rule says %s on row %s" % (name, got, want_art, t), dict({"cases": [line], "got": o}, **exp))
-        for k, name in enumerate(LISTING_EPS):
-            got = f[9 + 2 * k]
-            shown = ml and not (grp and name != "ptt.LoadBoardsByBids")
-            if got != ("1" if shown else "0"):
-                c.violation("listing:" + name, "%s: code %s (0 absent, 1 with title, 2 without) where may_list=%s group=%s on row %s" % (name, got, ml, grp, t),
-                            dict({"cases": [line], "got": o}, **exp))
-        if f[17] != ("1" if ml else "2"):
-            c.violation("summary:ptt.LoadBoardSummary", "ptt.LoadBoardSummary code %s where may_list=%s on row %s" % (f[17], ml, t), dict({"cases": [line], "got": o}, **exp))
-        for name, got in zip(BBS_EPS, f[19:23]):
-            if got != want_art:
-                c.violation("entry:" + name, "%s answered %s where the rule says %s on row %s" % (name, got, want_art, t), dict({"cases": [line], "got": o}, **exp))
-        if f[23] == "8":
-            c.violation("bbs-summary-panic", "bbs.LoadBoardSummary panics (nil title dereferenced) for a caller who may not list the board; row %s" % t, dict({"cases": [line], "got": o}, **exp))
-        elif f[23] != ("1" if ml else "2"):
-            c.violation("summary:bbs.LoadBoardSummary", "bbs.LoadBoardSummary code %s where may_list=%s on row %s" % (f[23], ml, t), dict({"cases": [line], "got": o}, **exp))
+
+    def judge_rows(build, rows_, lines_, outs_, models_):
+        # the predicates of one row through the 16 entry points; the same on every build
+        where = "" if build == "default" else " [%s build, -tags docker]" % build
+        for k_row, ((r, t, ba, grp), line, o) in enumerate(zip(rows_, lines_, outs_)):
+            f = o.split()
+            # the whole line the property prescribes (the check's own reference); the model's line (= the code as it is, with the
+            # options of that build) goes along for information
+            def exp(r=r, ba=ba, grp=grp, k_row=k_row):
+                return brep(build, dict({"expected": reference_row(r, ba, grp)}, **({"model": models_[k_row]} if models_ else {})))
+            mr, ml = spec_may_read(r), spec_may_list(r)
+            if build == "default":
+                outcome_count["allow" if mr else ("deny-but-listed" if ml else "deny")] += 1
+                c.nontrivial(tuple(r[k] for k in FIELDS) + (grp,))
+            else:
+                c.nontrivial((build,) + tuple(r[k] for k in FIELDS) + (grp,))
+            if f[0] != "0" or len(f) != 25:
+                c.violation(at(build, "entry-point-crash"), "a read entry point crashed / stalled on row %s%s: %s" % (t, where, o), brep(build, {"cases": [line], "got": o}))
+                continue
+            stat, gop = int(f[1]), f[2] == "1"
+            if (stat != 0) != mr:
+                c.violation(at(build, "rule"), "boardPermStat = %d where the specification says %s on row %s%s" % (stat, "allow" if mr else "deny", {k: r[k] for k in FIELDS}, where),
+                            dict({"cases": [line], "got": o}, **exp()))
+            want_art = "1" if mr else "0"
+            for name, got in zip(ARTICLE_EPS, f[3:9]):
+                if got != want_art:
+                    c.violation(at(build, "entry:" + name), "%s answered %s where the rule says %s on row %s%s" % (name, got, want_art, t, where), dict({"cases": [line], "got": o}, **exp()))
+            for k, name in enumerate(LISTING_EPS):
+                got = f[9 + 2 * k]
+                shown = ml and not (grp and name != "ptt.LoadBoardsByBids")
+                if got != ("1" if shown else "0"):
+                    c.violation(at(build, "listing:" + name), "%s: code %s (0 absent, 1 with title, 2 without) where may_list=%s group=%s on row %s%s" % (name, got, ml, grp, t, where),
+                                dict({"cases": [line], "got": o}, **exp()))
+            if f[17] != ("1" if ml else "2"):
+                c.violation(at(build, "summary:ptt.LoadBoardSummary"), summary_text("ptt.LoadBoardSummary", f[17], ml, t, r, build), dict({"cases": [line], "got": o}, **exp()))
+            for name, got in zip(BBS_EPS, f[19:23]):
+                if got != want_art:
+                    c.violation(at(build, "entry:" + name), "%s answered %s where the rule says %s on row %s%s" % (name, got, want_art, t, where), dict({"cases": [line], "got": o}, **exp()))
+            if f[23] == "8":
+                c.violation(at(build, "bbs-summary-panic"), "bbs.LoadBoardSummary panics (nil title dereferenced) for a caller who may not list the board; row %s%s" % (t, where), dict({"cases": [line], "got": o}, **exp()))
+            elif f[23] != ("1" if ml else "2"):
+                c.violation(at(build, "summary:bbs.LoadBoardSummary"), summary_text("bbs.LoadBoardSummary", f[23], ml, t, r, build), dict({"cases": [line], "got": o}, **exp()))
+
+    def summary_text(name, code, ml, t, r, build):
+        if code == "1" and not ml:
+            return ("%s returns the summary WITH the title (real title, class, moderators) of a board the rule refuses the caller (%s), who neither administers boards nor is a named "
+                    "moderator of it, in the %s build%s; row %s" % (name, reason_class(r)[0], build,
+                    " (compile-time options of that build: USE_REAL_DESC_FOR_HIDDEN_BOARD_IN_MYFAV = %s)" % options[build].split()[1] if build in options else "", t))
+        return "%s code %s (1 with title, 2 title withheld, 7 error) where may_list=%s on row %s [%s build]" % (name, code, ml, t, build)
+
+    judge_rows("default", table, l1, o1, m1 if model else None)
+
+    # the same table, every entry point, on the production build (op 9 names the build; only that binary answers it)
+    l9 = ["9 1|" + t for (_, t, _, _) in table]
+    o9 = run_impl_par(l9, exe=impl_docker)
+    c.count(len(l9) * 16, "rows x 16 entry points, -tags docker build")
+    m9 = vf.run_model(model, l9) if model else None
+    if model:
+        vf.correspond(c, "decision table x entry points, -tags docker build", l9, o9, m9)
+    judge_rows("docker", table, l9, o9, m9)
+    deny9 = next(k for k, (r, _, _, g) in enumerate(table) if not spec_may_list(r) and not g)
+    c.sample({"row": l9[deny9], "impl": o9[deny9], "spec": "deny", "build": "docker"})
     c.cov["distribution"].update({"rows " + k: v for k, v in outcome_count.items()})
     c.sample({"row": l1[4242], "impl": o1[4242], "legend": "status perm_stat groupOp | 6 ptt article entry points | 4 listings (code attr) | summary (code attr) | 4 bbs article entry points | bbs summary"})
     deny = next(k for k, (r, _, _, g) in enumerate(table) if not spec_may_list(r) and not g)
@@ -357,57 +464,72 @@ def main():
     if model:
         m5 = vf.run_model(model, l5)
         vf.correspond(c, "entry points x board content", l5, o5, m5, describe=lambda ln: describe_content(int(ln.split("|")[0].split()[1])))
-    content_cov = {}
-    wrong_verdict = {}                               # entry point -> [(content, case, got, class, payload, rule, expected)]
-    for k5, ((cb, r), line, o) in enumerate(zip(meta5, l5, o5)):
-        f = o.split()
-        mr = spec_may_read(r)
-        want = reference_content(mr, cb)
-        exp = {"expected": " ".join(["0"] + ["%d %d" % w for w in want])}
-        content_cov[(reason_class(r)[0], cb & 3)] = content_cov.get((reason_class(r)[0], cb & 3), 0) + 1
-        c.nontrivial(("content", cb) + tuple(r[k] for k in FIELDS))
-        if f[0] != "0" or len(f) != 21:
-            c.violation("entry-point-crash", "an article entry point crashed / stalled on a board with %s; row %s: %s" % (describe_content(cb), line, o),
-                        dict({"cases": [line], "got": o, "content": describe_content(cb)}, **exp))
-            continue
-        for j, name in enumerate(CONTENT_EPS):
-            cls, n = int(f[1 + 2 * j]), int(f[2 + 2 * j])
-            if name.endswith("IsBoardValidUser"):
-                refused, leak = (cls == 1 and n == 0), False
-                if cls != 1:
-                    c.violation("entry-content:" + name, "%s returned an error (class %d) instead of a verdict on a board with %s; row %s" % (name, cls, describe_content(cb), line),
+    def judge_content(build, meta5, l5, o5, content_cov):
+        where = "" if build == "default" else " [%s build, -tags docker]" % build
+        bkey = () if build == "default" else (build,)
+
+        def viol(key, desc, replay, **kw):
+            c.violation(at(build, key), desc + where, brep(build, replay), **kw)
+        wrong_verdict = {}                               # entry point -> [(content, case, got, class, payload, rule, expected)]
+        for k5, ((cb, r), line, o) in enumerate(zip(meta5, l5, o5)):
+            f = o.split()
+            mr = spec_may_read(r)
+            want = reference_content(mr, cb)
+            exp = {"expected": " ".join(["0"] + ["%d %d" % w for w in want])}
+            content_cov[(reason_class(r)[0], cb & 3)] = content_cov.get((reason_class(r)[0], cb & 3), 0) + 1
+            c.nontrivial(bkey + ("content", cb) + tuple(r[k] for k in FIELDS))
+            if f[0] != "0" or len(f) != 21:
+                viol("entry-point-crash", "an article entry point crashed / stalled on a board with %s; row %s: %s" % (describe_content(cb), line, o),
+                            dict({"cases": [line], "got": o, "content": describe_content(cb)}, **exp))
+                continue
+            for j, name in enumerate(CONTENT_EPS):
+                cls, n = int(f[1 + 2 * j]), int(f[2 + 2 * j])
+                if name.endswith("IsBoardValidUser"):
+                    refused, leak = (cls == 1 and n == 0), False
+                    if cls != 1:
+                        viol("entry-content:" + name, "%s returned an error (class %d) instead of a verdict on a board with %s; row %s" % (name, cls, describe_content(cb), line),
+                                    dict({"cases": [line], "got": o, "content": describe_content(cb)}, **exp))
+                        continue
+                else:
+                    refused, leak = cls == 0, (cls == 0 and n != 0)
+                if refused != (not mr):
+                    wrong_verdict.setdefault(name, []).append((cb, line, o, cls, n, mr, exp["expected"]))
+                elif leak:
+                    viol("entry-content-leak:" + name, "%s refuses and still returns a payload of %d on a board with %s; row %s" % (name, n, describe_content(cb), line),
                                 dict({"cases": [line], "got": o, "content": describe_content(cb)}, **exp))
-                    continue
-            else:
-                refused, leak = cls == 0, (cls == 0 and n != 0)
-            if refused != (not mr):
-                wrong_verdict.setdefault(name, []).append((cb, line, o, cls, n, mr, exp["expected"]))
-            elif leak:
-                c.violation("entry-content-leak:" + name, "%s refuses and still returns a payload of %d on a board with %s; row %s" % (name, n, describe_content(cb), line),
-                            dict({"cases": [line], "got": o, "content": describe_content(cb)}, **exp))
-            elif (cls, n) != want[j]:
-                # allowed and answered, but not with the content the board holds
-                c.violation("entry-content-data:" + name, "%s answered (error class %d, payload %d) where the content (%s) prescribes %s; row %s" % (name, cls, n, describe_content(cb), want[j], line),
-                            dict({"cases": [line], "got": o, "content": describe_content(cb)}, **exp))
-    for name, bad in sorted(wrong_verdict.items()):
-        # one violation per entry point; the replay names every content on which the verdict is wrong, the example is the most ordinary one
-        bad_contents = sorted(set(b[0] for b in bad))
-        shown = []
-        for b in sorted(bad, key=lambda b: (-b[0], b[1])):
-            if b[0] not in [x[0] for x in shown]:
-                shown.append(b)
-        cb, line, o, cls, n, mr, expected = shown[0]
-        c.violation("entry-content:" + name,
-                    "%s %s (error class %d, payload %d) where the rule says %s, on a board with %s; row %s. The verdict must not depend on what the board "
-                    "holds; it is wrong on %d of the %d contents tried (%d cases), right on the others"
-                    % (name, "refuses" if cls == 0 or (name.endswith("IsBoardValidUser") and n == 0) else "does not refuse", cls, n, "allow" if mr else "refuse",
-                       describe_content(cb), line, len(bad_contents), len(all_contents), len(bad)),
-                    {"cases": [b[1] for b in shown[:8]], "got": o, "expected": expected, "entry_point": name, "rule": "allow" if mr else "refuse",
-                     "content": describe_content(cb),
-                     "contents_with_wrong_verdict": {str(k): describe_content(k) for k in bad_contents},
-                     "contents_with_right_verdict": [k for k in all_contents if k not in bad_contents],
-                     "legend": "case: 5 <content bits: 1 index, 2 pinned index, 4 article file, 8 template, 16 pinned counter loaded>|<user level> <over18> <in moderator cache> <friend> <named moderator>|<board attr> <board level>; "
-                               "answer: status, then (error class, payload) for " + ", ".join(CONTENT_EPS) + "; class 0 = ErrNotPermitted, 1 = nil, 12 = no record, 13 = no such file"})
+                elif (cls, n) != want[j]:
+                    # allowed and answered, but not with the content the board holds
+                    viol("entry-content-data:" + name, "%s answered (error class %d, payload %d) where the content (%s) prescribes %s; row %s" % (name, cls, n, describe_content(cb), want[j], line),
+                                dict({"cases": [line], "got": o, "content": describe_content(cb)}, **exp))
+        for name, bad in sorted(wrong_verdict.items()):
+            # one violation per entry point; the replay names every content on which the verdict is wrong, the example is the most ordinary one
+            bad_contents = sorted(set(b[0] for b in bad))
+            shown = []
+            for b in sorted(bad, key=lambda b: (-b[0], b[1])):
+                if b[0] not in [x[0] for x in shown]:
+                    shown.append(b)
+            cb, line, o, cls, n, mr, expected = shown[0]
+            viol("entry-content:" + name,
+                        "%s %s (error class %d, payload %d) where the rule says %s, on a board with %s; row %s. The verdict must not depend on what the board "
+                        "holds; it is wrong on %d of the %d contents tried (%d cases), right on the others"
+                        % (name, "refuses" if cls == 0 or (name.endswith("IsBoardValidUser") and n == 0) else "does not refuse", cls, n, "allow" if mr else "refuse",
+                           describe_content(cb), line, len(bad_contents), len(all_contents), len(bad)),
+                        {"cases": [b[1] for b in shown[:8]], "got": o, "expected": expected, "entry_point": name, "rule": "allow" if mr else "refuse",
+                         "content": describe_content(cb),
+                         "contents_with_wrong_verdict": {str(k): describe_content(k) for k in bad_contents},
+                         "contents_with_right_verdict": [k for k in all_contents if k not in bad_contents],
+                         "legend": "case: 5 <content bits: 1 index, 2 pinned index, 4 article file, 8 template, 16 pinned counter loaded>|<user level> <over18> <in moderator cache> <friend> <named moderator>|<board attr> <board level>; "
+                                   "answer: status, then (error class, payload) for " + ", ".join(CONTENT_EPS) + "; class 0 = ErrNotPermitted, 1 = nil, 12 = no record, 13 = no such file"})
+    content_cov = {}
+    judge_content("default", meta5, l5, o5, content_cov)
+    # a sample on the production build: every sampled row on the four index / pinned contents and the bare ones
+    idx5 = [k for k, (cb, _) in enumerate(meta5) if cb in main_contents]
+    l5d, meta5d = [l5[k] for k in idx5], [meta5[k] for k in idx5]
+    o5d = run_impl_par(l5d, exe=impl_docker)
+    c.count(len(l5d) * 10, "degenerate content, -tags docker build")
+    if model:
+        vf.correspond(c, "entry points x board content, -tags docker build", l5d, o5d, [m5[k] for k in idx5])
+    judge_content("docker", meta5d, l5d, o5d, {})
     c.cov["distribution"].update({"content %s / %s" % (why, CONTENT_NAMES[m]): v for (why, m), v in sorted(content_cov.items())})
     c.cov["content_classes"] = {"reason classes": len(by_class), "rows sampled": len(picked), "contents": len(all_contents)}
     k_s = next(k for k, (cb, r) in enumerate(meta5) if cb == C_LOADED | C_INDEX and not spec_may_read(r))
@@ -421,24 +543,37 @@ def main():
     c.count(len(l6) * 5, "degenerate listings: rows x {empty, singleton} x 4 listings + empty class")
     if model:
         vf.correspond(c, "listings on empty / singleton candidate lists", l6, o6, vf.run_model(model, l6))
-    for (v, r), line, o in zip(meta6, l6, o6):
-        f = o.split()
-        ml = spec_may_list(r)
-        c.nontrivial(("listing", v) + tuple(r[k] for k in FIELDS))
-        if f[0] != "0" or len(f) != 16:
-            c.violation("entry-point-crash", "a listing crashed / stalled on %s; row %s: %s" % ("an empty candidate list" if v == 0 else "a list of one board", line, o), {"cases": [line], "got": o})
-            continue
-        for j, name in enumerate(LISTING_EPS):
-            code, n = f[1 + 3 * j], int(f[3 + 3 * j])
-            shown = (v == 1 and ml)
-            if code != ("1" if shown else "0") or n != (1 if shown else 0):
-                c.violation("listing-degenerate:" + name, "%s on %s: code %s (0 absent, 1 with title, 2 without, 7 error), %d entries, where may_list=%s; row %s"
-                            % (name, "an empty candidate list" if v == 0 else "a candidate list holding only the board", code, n, ml, line),
-                            {"cases": [line], "got": o, "expected": "0 " + " ".join(["1 <attr> 1" if shown else "0 -1 0"] * 4)})
-        if f[13:16] != ["0", "-1", "0"]:
-            c.violation("listing-degenerate:ptt.LoadClassBoards", "ptt.LoadClassBoards of a class without children: code %s (0 nothing listed, 7 error, 8 panic), %s entries; row %s" % (f[13], f[15], line),
-                        {"cases": [line], "got": o, "expected": "... 0 -1 0"})
+    def judge_listings(build, o6):
+        where = "" if build == "default" else " [%s build, -tags docker]" % build
+        bkey = () if build == "default" else (build,)
 
+        def viol(key, desc, replay, **kw):
+            c.violation(at(build, key), desc + where, brep(build, replay), **kw)
+        for (v, r), line, o in zip(meta6, l6, o6):
+            f = o.split()
+            ml = spec_may_list(r)
+            c.nontrivial(bkey + ("listing", v) + tuple(r[k] for k in FIELDS))
+            if f[0] != "0" or len(f) != 16:
+                viol("entry-point-crash", "a listing crashed / stalled on %s; row %s: %s" % ("an empty candidate list" if v == 0 else "a list of one board", line, o), {"cases": [line], "got": o})
+                continue
+            for j, name in enumerate(LISTING_EPS):
+                code, n = f[1 + 3 * j], int(f[3 + 3 * j])
+                shown = (v == 1 and ml)
+                if code != ("1" if shown else "0") or n != (1 if shown else 0):
+                    viol("listing-degenerate:" + name, "%s on %s: code %s (0 absent, 1 with title, 2 without, 7 error), %d entries, where may_list=%s; row %s"
+                                % (name, "an empty candidate list" if v == 0 else "a candidate list holding only the board", code, n, ml, line),
+                                {"cases": [line], "got": o, "expected": "0 " + " ".join(["1 <attr> 1" if shown else "0 -1 0"] * 4)})
+            if f[13:16] != ["0", "-1", "0"]:
+                viol("listing-degenerate:ptt.LoadClassBoards", "ptt.LoadClassBoards of a class without children: code %s (0 nothing listed, 7 error, 8 panic), %s entries; row %s" % (f[13], f[15], line),
+                            {"cases": [line], "got": o, "expected": "... 0 -1 0"})
+
+
+    judge_listings("default", o6)
+    o6d = run_impl_par(l6, exe=impl_docker)
+    c.count(len(l6) * 5, "degenerate listings, -tags docker build")
+    if model:
+        vf.correspond(c, "listings on empty / singleton candidate lists, -tags docker build", l6, o6d, vf.run_model(model, l6))
+    judge_listings("docker", o6d)
 
     # ---------------------------------------------------------------- the class listings on non-empty classes
     # The class tree of the scratch environment: the fixture's class root (bid 1) or its nested class (bid 5) with planted
@@ -532,56 +667,68 @@ def main():
     if model and l7:
         m7 = vf.run_model(model, l7)
         vf.correspond(c, "class listings on planted class trees", l7, o7, m7)
-    crashes = {}
+    def judge_class(build, o7, class_cov):
+        where = "" if build == "default" else " [%s build, -tags docker]" % build
+        bkey = () if build == "default" else (build,)
+
+        def viol(key, desc, replay, **kw):
+            c.violation(at(build, key), desc + where, brep(build, replay), **kw)
+        crashes = {}
+        for k7, (meta, line, o) in enumerate(zip(meta7, l7, o7)):
+            r, ul, o18, ba, bl, lvl, mode, cls, sort, chain = meta
+            f = o.split()
+            want_cls, want_full, stored, allowed = class_reference(meta)
+            expected = " ".join(["0", fmt_listing(want_cls), fmt_listing(want_cls), fmt_listing(want_full), fmt_listing(want_full), str(len(stored))] + [str(b_) for b_ in stored])
+            tree = "class %d (%s), chain %s by %s, sort %d: %s" % (cls, "root" if cls == 1 else "nested", "resolved by the code" if mode == 0 else "as planted", "class" if cls == 1 or sort == 1 else "name", sort,
+                                                               ", ".join("%d=%s" % (b_, KIND_NAMES[kd]) for b_, kd in chain))
+            rep = {"cases": [line], "expected": expected, "got": o, "tree": tree,
+                   "legend": "case: 7 <chain: 0 resolved by the code, 1 planted> <class> <sort>|<user level> <over18> <in moderator cache> <friend> <named moderator>|<attr> <level of the row's board>|<level of the class with a required level>|(<bid> <kind>)* in sibling order|fixture classes (<bid> <attr> <level>)*; "
+                             "answer: status, then for " + ", ".join(CLASS_EPS) + ": code (1 answered, 7 error, 8 panic), n, (bid, title 1 present / 2 withheld, attr) x n; then the sibling chain the segment holds"}
+            c.nontrivial(bkey + ("class", mode, cls, sort, tuple(kd for _, kd in chain)) + tuple(r[k_] for k_ in FIELDS))
+            cov_key = "class listing %s / %s" % (reason_class(r)[0], "row board is a class" if ba & CLASS_BITS else "row board is no class")
+            class_cov[cov_key] = class_cov.get(cov_key, 0) + 1
+            if len(want_cls) == (len(chain) if mode == 1 else 0) + 5:
+                class_cov["class listing filling the bound of ChildCount + 5 entries"] = class_cov.get("class listing filling the bound of ChildCount + 5 entries", 0) + 1
+            try:
+                if f[0] != "0":
+                    raise ValueError("status")
+                lists, chain_got = parse_class_listings(f)
+            except (ValueError, IndexError):
+                viol("entry-point-crash", "a class listing crashed / stalled on %s; row %s: %s" % (tree, line, o), rep)
+                continue
+            if chain_got != stored:
+                c.broken.append({"kind": "correspondence", "where": "class listings", "theorem": "the sibling chain the segment holds is the planted one / the children in sort order",
+                                 "examples": [{"case": line, "impl": o, "check": expected}], "log": ""})
+            for name, (code, ent), want in zip(CLASS_EPS, lists, [want_cls, want_cls, want_full, want_full]):
+                got_bids, want_bids = [e[0] for e in ent], [e[0] for e in want]
+                if code == 8:
+                    crashes.setdefault(name, []).append((k7, line, o, tree, rep))
+                elif code != 1:
+                    viol("listing-error:" + name, "%s returned an error instead of a listing on %s; row %s" % (name, tree, line), rep)
+                elif any(e[1] == 1 and not allowed(e[0]) for e in ent):
+                    bad = [e[0] for e in ent if e[1] == 1 and not allowed(e[0])]
+                    viol("listing-class-leak:" + name, "%s lists board(s) %s with the title although the rule refuses the caller, who neither administers boards nor is a named moderator; %s; row %s" % (name, bad, tree, line), rep)
+                elif got_bids != want_bids:
+                    missing, extra = [b_ for b_ in want_bids if b_ not in got_bids], [b_ for b_ in got_bids if b_ not in want_bids]
+                    viol("listing-class:" + name, "%s answered boards %s where the children the caller may list are %s in sibling order (omitted %s, not to be listed %s%s); %s; row %s"
+                                % (name, got_bids, want_bids, missing, extra, "" if missing or extra else ", order differs", tree, line), rep)
+                elif any(e[1] != 1 for e in ent):
+                    viol("listing-class-title:" + name, "%s lists board(s) %s without the title for a caller who may list them; %s; row %s" % (name, [e[0] for e in ent if e[1] != 1], tree, line), rep)
+        for name in CLASS_EPS:                           # one violation per function (the ptt one stands for its bbs wrapper); the example is the fixture's own tree
+            bad = crashes.get(name)
+            if not bad:
+                continue
+            k7, line, o, tree, rep = bad[0]
+            viol("listing-crash:" + name.split(".")[1],
+                        "%s panics instead of omitting the children the caller may not see (or that are no classes): %d of the %d class trees tried, e.g. %s; row %s"
+                        % (name, len(bad), len(l7), tree, line), dict(rep, crashing_cases=len(bad), cases_tried=len(l7)))
     class_cov = {}
-    for k7, (meta, line, o) in enumerate(zip(meta7, l7, o7)):
-        r, ul, o18, ba, bl, lvl, mode, cls, sort, chain = meta
-        f = o.split()
-        want_cls, want_full, stored, allowed = class_reference(meta)
-        expected = " ".join(["0", fmt_listing(want_cls), fmt_listing(want_cls), fmt_listing(want_full), fmt_listing(want_full), str(len(stored))] + [str(b_) for b_ in stored])
-        tree = "class %d (%s), chain %s by %s, sort %d: %s" % (cls, "root" if cls == 1 else "nested", "resolved by the code" if mode == 0 else "as planted", "class" if cls == 1 or sort == 1 else "name", sort,
-                                                           ", ".join("%d=%s" % (b_, KIND_NAMES[kd]) for b_, kd in chain))
-        rep = {"cases": [line], "expected": expected, "got": o, "tree": tree,
-               "legend": "case: 7 <chain: 0 resolved by the code, 1 planted> <class> <sort>|<user level> <over18> <in moderator cache> <friend> <named moderator>|<attr> <level of the row's board>|<level of the class with a required level>|(<bid> <kind>)* in sibling order|fixture classes (<bid> <attr> <level>)*; "
-                         "answer: status, then for " + ", ".join(CLASS_EPS) + ": code (1 answered, 7 error, 8 panic), n, (bid, title 1 present / 2 withheld, attr) x n; then the sibling chain the segment holds"}
-        c.nontrivial(("class", mode, cls, sort, tuple(kd for _, kd in chain)) + tuple(r[k_] for k_ in FIELDS))
-        cov_key = "class listing %s / %s" % (reason_class(r)[0], "row board is a class" if ba & CLASS_BITS else "row board is no class")
-        class_cov[cov_key] = class_cov.get(cov_key, 0) + 1
-        if len(want_cls) == (len(chain) if mode == 1 else 0) + 5:
-            class_cov["class listing filling the bound of ChildCount + 5 entries"] = class_cov.get("class listing filling the bound of ChildCount + 5 entries", 0) + 1
-        try:
-            if f[0] != "0":
-                raise ValueError("status")
-            lists, chain_got = parse_class_listings(f)
-        except (ValueError, IndexError):
-            c.violation("entry-point-crash", "a class listing crashed / stalled on %s; row %s: %s" % (tree, line, o), rep)
-            continue
-        if chain_got != stored:
-            c.broken.append({"kind": "correspondence", "where": "class listings", "theorem": "the sibling chain the segment holds is the planted one / the children in sort order",
-                             "examples": [{"case": line, "impl": o, "check": expected}], "log": ""})
-        for name, (code, ent), want in zip(CLASS_EPS, lists, [want_cls, want_cls, want_full, want_full]):
-            got_bids, want_bids = [e[0] for e in ent], [e[0] for e in want]
-            if code == 8:
-                crashes.setdefault(name, []).append((k7, line, o, tree, rep))
-            elif code != 1:
-                c.violation("listing-error:" + name, "%s returned an error instead of a listing on %s; row %s" % (name, tree, line), rep)
-            elif any(e[1] == 1 and not allowed(e[0]) for e in ent):
-                bad = [e[0] for e in ent if e[1] == 1 and not allowed(e[0])]
-                c.violation("listing-class-leak:" + name, "%s lists board(s) %s with the title although the rule refuses the caller, who neither administers boards nor is a named moderator; %s; row %s" % (name, bad, tree, line), rep)
-            elif got_bids != want_bids:
-                missing, extra = [b_ for b_ in want_bids if b_ not in got_bids], [b_ for b_ in got_bids if b_ not in want_bids]
-                c.violation("listing-class:" + name, "%s answered boards %s where the children the caller may list are %s in sibling order (omitted %s, not to be listed %s%s); %s; row %s"
-                            % (name, got_bids, want_bids, missing, extra, "" if missing or extra else ", order differs", tree, line), rep)
-            elif any(e[1] != 1 for e in ent):
-                c.violation("listing-class-title:" + name, "%s lists board(s) %s without the title for a caller who may list them; %s; row %s" % (name, [e[0] for e in ent if e[1] != 1], tree, line), rep)
-    for name in CLASS_EPS:                           # one violation per function (the ptt one stands for its bbs wrapper); the example is the fixture's own tree
-        bad = crashes.get(name)
-        if not bad:
-            continue
-        k7, line, o, tree, rep = bad[0]
-        c.violation("listing-crash:" + name.split(".")[1],
-                    "%s panics instead of omitting the children the caller may not see (or that are no classes): %d of the %d class trees tried, e.g. %s; row %s"
-                    % (name, len(bad), len(l7), tree, line), dict(rep, crashing_cases=len(bad), cases_tried=len(l7)))
+    judge_class("default", o7, class_cov)
+    o7d = run_impl_par(l7, exe=impl_docker)
+    c.count(len(l7) * 4, "class listings, -tags docker build")
+    if model and l7:
+        vf.correspond(c, "class listings on planted class trees, -tags docker build", l7, o7d, m7)
+    judge_class("docker", o7d, {})
     c.cov["distribution"].update(class_cov)
     if l7:
         k_s = next((k for k, m_ in enumerate(meta7) if m_[6] == 1 and len(m_[9]) >= 8 and not spec_may_list(m_[0])), 0)
@@ -619,7 +766,8 @@ def main():
     c.cov["exhaustive_parts"] = ["all %d consistent rows of the 2^16 decision table (%d inconsistent rows pruned: level = 0 with a level bit), each through 11 ptt entry points, "
                                  "5 bbs wrappers, boardPermStat and groupOp" % (n_consistent, (1 << 16) - n_consistent),
                                  "all 32 board contents for every sampled row (the content domain of op 5 is enumerated completely)",
-                                 "class listings: all 8 (chain mode x class x sort order) combinations for the first rows of every reason class"]
+                                 "class listings: all 8 (chain mode x class x sort order) combinations for the first rows of every reason class",
+                                 "both build configurations of the repository (default; -tags docker = production): every row of the table through all 16 entry points on each"]
     c.finish(rule="every consistent row of the 16-input table, irrelevant permission/attribute bits drawn from PRNG(seed) (thorough: three draws per row); "
                   "plus group/symbolic variants of sampled rows; plus sampled rows through the inconsistent-pair and caller-less probes; "
                   "plus, for a PRNG(seed) sample of rows holding at least 25 rows of every (deciding clause x administers x named moderator) class, "
@@ -628,10 +776,15 @@ def main():
                   "four index/pinned contents); plus, for every sampled row, the four class listings on a class tree drawn from PRNG(seed) "
                   "(chain resolved by the code / planted in a random order, class root / nested class, sort by name / class — all 8 combinations for 4 rows "
                   "of every class, one in rotation for the others; children: a random subset of the 7 planted kinds and the fixture's classes; the row's board a class or link in 9 of 10); "
-                  "a case is non-trivial if it is a distinct (row, group flag) / (content, row) / (listing variant, row) / (class tree shape, row)",
+                  "the whole table (op 9), the listing cases, the class-listing cases and the content cases on 8 of the 32 contents run a second time on the driver built "
+                  "with -tags 'verif docker' (the production configuration) under the same predicates; "
+                  "a case is non-trivial if it is a distinct (build) x (row, group flag) / (content, row) / (listing variant, row) / (class tree shape, row)",
              assumptions=["the caller's uid is a valid logged-in uid (what every API handler derives from the token); uid 0 / -1 are not rows of the table",
                           "friend list and moderator cache are planted directly (file `visable` reloaded by the code itself; BMCache written into the segment) — how they are built is C12",
                           "listing paging (nBoards + 1, next cursor) is C11; here every listing is requested unpaged",
+                          "build configurations: the repository has two (ptttype/00-config-default.go, ptttype/01-config-docker.go = -tags docker; the tags dev / production "
+                          "select no configuration file at this commit); the docker driver runs on the same small fixture (.PASSWDS / .BRD of ptt/testcase) inside a segment of the "
+                          "production size (80 MB, MAX_BOARD 20000), not on a production-size board file; runtime configuration (config.ini variables) is not a build option and is left at the test values",
                           "class listings: the class tree is planted into the board cache (Gid / FirstChild / Next / ChildCount, attributes and levels of fixture boards); "
                           "a chain is acyclic and holds each board once; one class listing is bounded by ChildCount + 5 entries as in pttbbs (go's resolver leaves ChildCount at 0: five entries) — "
                           "the reference applies that bound, listing size is C11's; children that are neither class nor link are not part of a class listing in go-pttbbs (its own filter, like group boards in the general listing)",
